@@ -911,6 +911,8 @@ func (h *harness) genCase(r *rng, name, stream string, nops int) *Case {
 				}
 				sort.SliceStable(o.Sub, func(a, b int) bool { return o.Sub[a].At < o.Sub[b].At })
 				c.Ops = append(c.Ops, o)
+			case h.prop == "C04" && r.chance(25):
+				c.Ops = append(c.Ops, Op{Kind: "recoveryloop"})
 			case h.prop == "C13" || (stream != "ploss" && r.chance(30)):
 				if r.chance(50) {
 					c.Ops = append(c.Ops, Op{Kind: "failclose"})
@@ -923,6 +925,11 @@ func (h *harness) genCase(r *rng, name, stream string, nops int) *Case {
 		case 11:
 			c.Ops = append(c.Ops, Op{Kind: "getappend", K: key(), V: patternBytes(r.intn(5), 'B')})
 		}
+	}
+	if h.prop == "C04" && stream == "crash" && r.chance(30) && len(c.Ops) > 10 {
+		// somewhere in the history the recovering Open crashes many times in a row
+		at := 5 + r.intn(len(c.Ops)-5)
+		c.Ops = append(c.Ops[:at], append([]Op{{Kind: "recoveryloop"}}, c.Ops[at:]...)...)
 	}
 	return c
 }
@@ -1923,6 +1930,7 @@ func (h *harness) runCase(c *Case, stream string, r *rng) {
 			s.compact(o)
 			sinceCk = 1 << 30
 		case "reopen":
+			old := s.db
 			err := s.db.Close()
 			h.emit("close %s", errStr(err))
 			s.images("stable")
@@ -1934,6 +1942,17 @@ func (h *harness) runCase(c *Case, stream string, r *rng) {
 			h.emit("dir %s handles=%d", dirLine(s.sim.Snapshot()), s.sim.OpenHandles())
 			s.useAfterClose()
 			if s.open("clean") {
+				if s.r.chance(40) {
+					// a second Close of the previous handle (a deferred Close after an explicit one) while
+					// the directory belongs to the new one: it must fail and touch nothing
+					res := "panic"
+					func() {
+						defer func() { _ = recover() }()
+						res = errStr(old.Close())
+					}()
+					h.emit("staleclose %s", res)
+					h.stat("staleclose")
+				}
 				s.images("stable")
 				h.emit("state %s", observe(s.db, c.Pool))
 			}
@@ -1957,6 +1976,30 @@ func (h *harness) runCase(c *Case, stream string, r *rng) {
 			sinceCk = 1 << 30
 		case "failclose":
 			s.failClose()
+			sinceCk = 1 << 30
+		case "recoveryloop":
+			// the recovering Open dies again and again (C04: any number of times), then one completes
+			s.sim.Kill()
+			h.emit("kill")
+			for i := 0; i < 70; i++ {
+				s.sim.ResetFailBudget(2 + s.r.intn(12))
+				db, err := pogreb.Open(dbDir, s.opts)
+				s.sim.ResetFailBudget(-1)
+				if err == nil {
+					s.db = db
+					break
+				}
+				s.db = nil
+				h.emit("failedopen %s", errStr(err))
+				s.sim.Kill()
+			}
+			if s.db != nil {
+				h.emit("open kind=recover res=ok seed=%d", s.db.VerifHashSeed())
+				h.emit("state %s", observe(s.db, c.Pool))
+			} else if s.open("recover") {
+				h.emit("state %s", observe(s.db, c.Pool))
+			}
+			s.images("stable")
 			sinceCk = 1 << 30
 		case "crashtorn", "crashtornhdr":
 			s.crashTorn(o, o.Kind == "crashtornhdr")
